@@ -282,14 +282,16 @@ pub fn leaf_texts(tier: &str) -> Vec<String> {
     }
     let (bv, tv): (Vec<&str>, Vec<&str>) = match tier {
         "thorough" => (
-            vec!["1.0.0", "1.0.1", "2.0.0", "1.0.0-a", "1.0.0-a.0", "2.0.0-0", "1.0.0-0.a"],
+            vec!["1.0.0", "1.0.1", "2.0.0", "1.0.0-a", "1.0.0-a.0", "2.0.0-0", "1.0.0-0.a", "1.0.1-0"],
             vec!["1.0.0", "2.0.0", "1.0.0-a"],
         ),
         "tiny" => (vec!["1.0.0", "2.0.0"], vec!["1.0.0"]),
         // components above 2^32 / 2^33 next to small ones, and prerelease tags whose numeric and
         // textual orders disagree (9 < 10 < 1a by SemVer; "10" < "1a" < "9" as text)
         "exotic" => (
-            vec!["1.0.4294967297", "1.1.0", "1.8589934593.0", "2.0.0", "1.0.0-9", "1.0.0-10", "1.0.0-1a", "1.0.1"],
+            // ... plus a release, the next patch and the `-0` floor of that next patch (the bound that
+            // caret / tilde / x-ranges generate: nothing lies between 1.0.0 and 1.0.1-0)
+            vec!["1.0.4294967297", "1.1.0", "1.8589934593.0", "2.0.0", "1.0.0-9", "1.0.0-10", "1.0.0-1a", "1.0.1", "1.0.0", "1.0.1-0"],
             vec!["1.1.0"],
         ),
         _ => (vec!["1.0.0", "2.0.0", "1.0.0-a", "2.0.0-0.a"], vec!["1.0.0", "2.0.0"]),
